@@ -17,6 +17,10 @@ def main():
     except BaseException:
         res = {"evaluations": 0,
                "inconclusive": ["worker crashed outside any case: " + traceback.format_exc()[-3000:]]}
+    sh = sys.modules.get("vf.simharness")
+    if sh is not None and getattr(sh, "CLOSE_REASONS", None) and isinstance(res.get("counters"), dict):
+        for k, v in sh.CLOSE_REASONS.items():
+            res["counters"][f"obs_connections_closed_{k}"] = v
     with open(ofile + ".tmp", "w") as f:
         json.dump(res, f, default=str)
     import os
